@@ -260,8 +260,6 @@ def sigma_filter(filename, region, step_size, box_size, shape, domask,
     i = barrier.wait()
     if _verif.ENABLED:
         _verif.point(ymin, "b1_after", index=i)
-    if i == 0:
-        barrier.reset()
 
     logging.debug("background subtraction")
     data[0 + ymin - data_row_min: data.shape[0] -
@@ -293,8 +291,6 @@ def sigma_filter(filename, region, step_size, box_size, shape, domask,
         i = barrier.wait()
         if _verif.ENABLED:
             _verif.point(ymin, "b2_after", index=i)
-        if i == 0:
-            barrier.reset()
 
         logging.debug("applying mask")
         mask = ~np.isfinite(
